@@ -440,3 +440,38 @@ End Timestamp.
 Lemma layout_keeps_nanos_now : layout_keeps_nanos = true.
 Proof. reflexivity. Qed.
 
+Lemma parse_protocol_id_id s ae p : parse_protocol_id s ae = Ok p -> p = s.
+Proof.
+  destruct ae; intros H.
+  - apply parse_protocol_id_allow_empty in H. apply H.
+  - apply parse_protocol_id_spec in H. apply H.
+Qed.
+
+Lemma unique_from_spec l ae : forall seen r,
+  parse_protocol_ids_unique_from seen l ae = Ok r ->
+  NoDup r /\ (forall x, In x r <-> In x l /\ ~ In x seen).
+Proof.
+  induction l as [|s l IH]; intros seen r H; cbn [parse_protocol_ids_unique_from] in H.
+  - inversion H; subst. split; [constructor|]. intros x. cbn. tauto.
+  - destruct (parse_protocol_id s ae) as [p|k|] eqn:E; cbn [obind] in H; try discriminate.
+    apply parse_protocol_id_id in E. subst p.
+    destruct (mem s seen) eqn:M.
+    + apply mem_spec in M. destruct (IH _ _ H) as [ND K]. split; [exact ND|].
+      intros x. rewrite K. cbn. split; [tauto|]. intros [[<-|Hx] Hn]; [contradiction|tauto].
+    + assert (~ In s seen) as Ns by (intros X; apply mem_spec in X; congruence).
+      destruct (parse_protocol_ids_unique_from (s :: seen) l ae) as [r'|k|] eqn:E2; cbn [obind] in H; try discriminate.
+      inversion H; subst. destruct (IH _ _ E2) as [ND K]. split.
+      * constructor; [|exact ND]. intros X. apply K in X. apply (proj2 X). left; reflexivity.
+      * intros x. cbn [In]. rewrite K. cbn [In]. split.
+        -- intros [<-|[Hx Hn]]; [tauto|]. split; [tauto|]. intros X. apply Hn. right; exact X.
+        -- intros [[<-|Hx] Hn]; [tauto|]. destruct (list_eq_dec Z.eq_dec s x) as [<-|Ne]; [tauto|].
+           right. split; [exact Hx|]. intros [X|X]; [contradiction|contradiction].
+Qed.
+
+(* ParseProtocolIDsUnique: duplicate free, exactly the ids given (first occurrence order) *)
+Lemma parse_protocol_ids_unique_spec l ae r :
+  parse_protocol_ids_unique l ae = Ok r -> NoDup r /\ forall x, In x r <-> In x l.
+Proof.
+  intros H. destruct (unique_from_spec l ae [] r H) as [ND K]. split; [exact ND|].
+  intros x. rewrite K. cbn. tauto.
+Qed.
